@@ -217,7 +217,7 @@ def check_set(aset):
 
 
 MAXK = 5 if a.tier == "thorough" else 4
-N_SETS = {"quick": 260, "thorough": 4000}.get(a.tier, 260)
+N_SETS = {"quick": 260, "thorough": 1200}.get(a.tier, 260)
 scripted = [
     [("sub.append", 0, 1), ("sub.append", 1, 2)],
     [("sub.append", 0, 1), ("sub.append", 1, 2), ("sub.append", 2, 0)],                       # cycle
